@@ -176,6 +176,16 @@ def build(traces, k: int = 10) -> Dict[str, str]:
     return {m: s.render() for m, s in stubs.items()}
 
 
+def build_via_index(traces, k: int = 10) -> Dict[str, str]:
+    """The other public way to a ModuleStub: a StubIndexBuilder used as the trace logger."""
+    from monkeytype.stubs import StubIndexBuilder
+
+    sib = StubIndexBuilder(".*", k)
+    for t in traces:
+        sib.log(t)
+    return {m: s.render() for m, s in sib.get_stubs().items()}
+
+
 BN: Dict[Any, str] = {}
 
 
@@ -246,6 +256,14 @@ def run(ctx: Ctx) -> Result:
             res.validated += 1
             res.evaluations += 1
             vs = check_stub(text, tg[0], tg[1], expect, tag_of(bs, i, cls[ai], cls[bi]))
+            if ci == "single" or n % 4 == 0:
+                try:
+                    text2 = build_via_index(traces)[tg[0]]
+                    vs2 = [(k_, "StubIndexBuilder:" + s_ if not s_.startswith("typed-dict") else s_, m_) for k_, s_, m_ in check_stub(text2, tg[0], tg[1], expect, tag_of(bs, i, cls[ai], cls[bi]))]
+                    vs = vs + [v for v in vs2 if (v[0], v[1].replace("StubIndexBuilder:", "")) not in {(a, b) for a, b, _ in vs}]
+                    res.oblige("saw:StubIndexBuilder", True)
+                except Exception as e:  # noqa: BLE001
+                    res.violate(Violation(ID, "exception", "StubIndexBuilder:" + type(e).__name__, case, f"StubIndexBuilder raised {e!r}"))
             res.transitions += sum(len(p) + 1 for _, p, _ in expect)
             for kind, sig, msg in vs[:3]:
                 res.violate(Violation(ID, kind, sig, case, msg + "\n--- stub ---\n" + text[:1500]))
@@ -264,6 +282,7 @@ def run(ctx: Ctx) -> Result:
     res = run_shards(ctx, shard, list(range(nshards)))
     res.obligations.setdefault("saw:typed-dict-class", False)
     res.obligations.setdefault("saw:nontotal", False)
+    res.obligations.setdefault("saw:StubIndexBuilder", False)
     res.bounds.update({"classes": len(cls), "builders": len(bs), "targets": len(tgs), "tuples": "pairs" if ctx.quick else "pairs+triples"})
     return res
 
